@@ -200,6 +200,8 @@ package transport
 
 // ---- C16: telnet leaves no write deadline armed on the socket (every later write is judged on its own) ------------------
 //@ func (*Telnet).Open [C16]
+//@   ensures [C10 C16] #a-failed-open-leaves-no-socket-behind result != nil ==> socks == old(socks)
+//@   ensures [C10 C16] #a-successful-open-holds-exactly-the-socket-it-dialled result == nil ==> socks == old(socks) + 1
 //@   ensures #no-write-deadline-is-left-armed result == nil ==> !wdl
 
 // ---- C14: the ssh process is started with exactly the argv of buildOpenArgs (plus `-s netconf` for NETCONF) -------------
